@@ -65,16 +65,39 @@ fn parse_rfc1123(s: &str) -> Option<i64> {
 pub struct AuditTrace {
     connect_seq: BTreeMap<u64, u64>,      // connection id -> event sequence number of its connect
     removes: Vec<(u64, u16)>,             // (event sequence number, source port) of each successful removal
+    lookups: Vec<(u64, u16)>,             // (event sequence number, source port) of each lookup, found or not
+    found_lookups: Vec<(u64, u16, i64)>,  // ... of each lookup that found a record, and the task that did it (it removes the record next)
+    remove_attempts: Vec<(u64, u16, i64)>, // ... of each removal attempt, whatever its result, and its task
 }
 impl AuditTrace {
     pub fn from_events() -> Self {
         let mut connect_seq = BTreeMap::new();
         let mut removes = Vec::new();
+        let mut lookups = Vec::new();
+        let mut found_lookups = Vec::new();
+        let mut remove_attempts = Vec::new();
+        let port_of = |text: &str, prefix: &str| -> Option<u16> {
+            let inner = text[prefix.len()..].split(']').next().unwrap_or("");
+            let bytes: Vec<u8> = inner.split(',').filter_map(|x| u8::from_str_radix(x.trim(), 16).ok()).collect();
+            if bytes.len() == 8 { Some(u32::from_ne_bytes([bytes[4], bytes[5], bytes[6], bytes[7]]) as u16) } else { None }
+        };
+        let task_of = |text: &str| -> i64 { text.split(" task=").nth(1).and_then(|x| x.split(' ').next()).and_then(|x| x.parse().ok()).unwrap_or(-1) };
         vrt::with(|w| {
             for e in w.events.iter() {
                 if e.kind == "net" && e.text.starts_with("connect conn=") {
                     if let Some(id) = e.text["connect conn=".len()..].split(' ').next().and_then(|x| x.parse::<u64>().ok()) {
                         connect_seq.insert(id, e.seq);
+                    }
+                } else if e.kind == "kern" && e.text.starts_with("user lookup audit_map key=[") {
+                    if let Some(p) = port_of(&e.text, "user lookup audit_map key=[") {
+                        lookups.push((e.seq, p));
+                        if e.text.ends_with("-> found") {
+                            found_lookups.push((e.seq, p, task_of(&e.text)));
+                        }
+                    }
+                } else if e.kind == "kern" && e.text.starts_with("user remove audit_map key=[") && !e.text.ends_with("-> 0") {
+                    if let Some(p) = port_of(&e.text, "user remove audit_map key=[") {
+                        remove_attempts.push((e.seq, p, task_of(&e.text)));
                     }
                 } else if e.kind == "kern" && e.text.starts_with("user remove audit_map key=[") && e.text.ends_with("-> 0") {
                     // key = protocol (4 bytes) + source port (4 bytes, native order), printed as hex bytes
@@ -83,11 +106,42 @@ impl AuditTrace {
                     if bytes.len() == 8 {
                         let port = u32::from_ne_bytes([bytes[4], bytes[5], bytes[6], bytes[7]]) as u16;
                         removes.push((e.seq, port));
+                        remove_attempts.push((e.seq, port, task_of(&e.text)));
                     }
                 }
             }
         });
-        AuditTrace { connect_seq, removes }
+        AuditTrace { connect_seq, removes, lookups, found_lookups, remove_attempts }
+    }
+    /// Had some earlier connection from `port` not yet been looked up by the proxy when connection `conn` was opened?
+    /// `earlier` = how many client connections from that port reached the listener before `conn` (each gets exactly one
+    /// lookup by its own per-connection task). This is the situation of the listed finding: the proxy consumes records
+    /// in a task spawned after accept, keyed by source port only, so an outstanding lookup can take the record of the
+    /// next connection on that port (or the next connection finds the record of the previous one).
+    pub fn lookup_outstanding_at(&self, port: u16, conn: u64, earlier: usize) -> bool {
+        match self.connect_seq.get(&conn) {
+            Some(at) => {
+                let n = |v: &Vec<(u64, u16)>| v.iter().filter(|(s, p)| *p == port && s < at).count();
+                // an earlier connection has not been looked up yet, or was looked up but its task has not removed the
+                // record yet (lookup and removal are two steps of that task)
+                if n(&self.lookups) < earlier {
+                    return true;
+                }
+                // pair every lookup that found a record with the removal attempt that follows it (same task, next
+                // step); the window counts only if that removal does come - a record that its task never removes is not
+                // this transient
+                for (ls, _, lt) in self.found_lookups.iter().filter(|(_, p, _)| *p == port) {
+                    // the removal by the same task that follows this lookup
+                    if let Some((rs, _, _)) = self.remove_attempts.iter().find(|(rs, p, rt)| *p == port && rt == lt && rs > ls) {
+                        if ls < at && rs > at {
+                            return true;
+                        }
+                    }
+                }
+                false
+            }
+            None => false,
+        }
     }
     /// was the record of `port` removed after connection `from` was opened and before connection `to` was opened?
     pub fn consumed_between(&self, port: u16, from: u64, to: u64) -> bool {
@@ -114,6 +168,7 @@ pub fn check_proxy(run: &mut Run) {
     let conns = run.conns.clone();
     let phases = run.phases.clone();
     let audit_trace = AuditTrace::from_events();
+    let all_infos = vrt::net::conn_infos();
     let faulted_upstream: Vec<vrt::net::ConnInfo> = vrt::net::conn_infos().into_iter().filter(|ci| ci.initiator.tgid == vrt::procs::AGENT_PID && !ci.faults.is_empty()).collect();
     let mut viol: Vec<(String, String, String)> = Vec::new();
     let mut stats: BTreeMap<String, i64> = BTreeMap::new();
@@ -147,9 +202,8 @@ pub fn check_proxy(run: &mut Run) {
         let mut conn_disturbed = false;
         // the listed C07 finding shows in these checks too: a connection that reuses the source port of a client that
         // vanished before the proxy consumed its record is evaluated with that record (or loses its own record to it)
-        let known_race = conns.iter().any(|(pj, cq, crq)| {
-            pj <= pi && cq.idx != cp.idx && crq.connected && crq.src_port == cr.src_port && (cq.reqs.is_empty() || cq.close != "normal") && crq.conn_id < cr.conn_id && !audit_trace.consumed_between(crq.src_port, crq.conn_id, cr.conn_id)
-        });
+        let earlier_on_port = all_infos.iter().filter(|ci| ci.src.port() == cr.src_port && ci.id < cr.conn_id && ci.accepted && ci.actual_dst.to_string() == hosts::PROXY && ci.initiator.tgid != vrt::procs::AGENT_PID).count();
+        let known_race = earlier_on_port > 0 && audit_trace.lookup_outstanding_at(cr.src_port, cr.conn_id, earlier_on_port);
         let race_tag = if known_race { " [source port reused after a client vanished before the proxy consumed its record]" } else { "" };
         for (ri, rq) in cp.reqs.iter().enumerate() {
             known_tokens.insert(rq.tok.clone(), ());
@@ -284,9 +338,7 @@ pub fn check_proxy(run: &mut Run) {
                 // ... AND that record was still in the map when this connection was opened (the listed finding is about a
                 // record that outlives its vanished connection until the port is reused; a record that had been consumed
                 // before the reuse cannot explain anything)
-                let vanished_peer = conns.iter().any(|(pj, cq, crq)| {
-                    pj <= pi && cq.idx != cp.idx && crq.connected && crq.src_port == cr.src_port && (cq.reqs.is_empty() || cq.close != "normal") && crq.conn_id < cr.conn_id && !audit_trace.consumed_between(crq.src_port, crq.conn_id, cr.conn_id)
-                });
+                let vanished_peer = known_race;
                 let tag = if vanished_peer { " [source port reused after a client vanished before the proxy consumed its record]" } else { "" };
                 if relayed && !attributed {
                     viol.push(("C07".into(), format!("unattributed connection evaluated with another connection's record{}", tag), format!("tok={} port={} dst={}", rq.tok, cr.src_port, cp.dst_name)));
